@@ -110,28 +110,40 @@ Qed.
 Lemma same_view_refl l : same_view l l.
 Proof. repeat split; auto. Qed.
 
+(* how the decoded bucket is related to the source bucket *)
+Definition brel (o : option (list gv)) (dp : list gv) : Prop :=
+  match o with
+  | Some (x :: r) => exists dl, dp = cast_alg dl /\ hrel (x :: r) dl /\ validate_params (x :: r) true = true
+  | _ => dp = []
+  end.
+Definition urel (o : option (list gv)) (du : list gv) : Prop :=
+  match o with
+  | Some (x :: r) => hrel (x :: r) du /\ validate_params (x :: r) false = true
+  | _ => du = []
+  end.
+
 Lemma prot_case o pb :
   bucket_ok o -> prot_limits o -> enc_protected o = Acc pb ->
-  exists m dl, pb = ser (tbstr m) /\ short m /\ dec_protected (tbstr m) = Acc dl /\ same_view (hmap o) dl.
+  exists m dl, pb = ser (tbstr m) /\ short m /\ dec_protected (tbstr m) = Acc dl /\ same_view (hmap o) dl /\ brel o dl.
 Proof.
   intros Hok Hlim He. destruct o as [[|x r]|].
   - inversion He; subst. exists [], []. repeat split; auto.
   - destruct Hok as [Hs Hv].
     destruct (dec_protected_of_enc (x :: r) pb ltac:(discriminate) Hs Hv He Hlim) as (m & dl & _ & -> & Sm & _ & D & HR & _ & V).
     exists m, (cast_alg dl). split; [reflexivity|]. split; [exact Sm|]. split; [exact D|].
-    apply same_view_cast. eapply hrel_same_view; eauto.
+    split; [apply same_view_cast; eapply hrel_same_view; eauto|]. exists dl. auto.
   - inversion He; subst. exists [], []. repeat split; auto.
 Qed.
 
 Lemma unprot_case o ub fuel :
   bucket_ok o -> unprot_limits o -> enc_unprotected o = Acc ub ->
-  exists w dl, ub = ser w /\ wf w = true /\ dec_unprotected (S fuel) w = Acc dl /\ same_view (hmap o) dl.
+  exists w dl, ub = ser w /\ wf w = true /\ dec_unprotected (S fuel) w = Acc dl /\ same_view (hmap o) dl /\ urel o dl.
 Proof.
   intros Hok Hlim He. destruct o as [[|x r]|].
   - inversion He; subst. exists (WMap W0 []), []. repeat split; auto.
   - destruct Hok as [Hs Hv].
     destruct (dec_unprotected_of_enc (x :: r) ub fuel ltac:(discriminate) Hs Hv He (Hlim _ He)) as (w & dl & -> & W & _ & _ & D & HR & _ & V).
-    exists w, dl. split; [reflexivity|]. split; [exact W|]. split; [exact D|]. eapply hrel_same_view; eauto.
+    exists w, dl. split; [reflexivity|]. split; [exact W|]. split; [exact D|]. split; [eapply hrel_same_view; eauto|]. split; auto.
   - inversion He; subst. exists (WMap W0 []), []. repeat split; auto.
 Qed.
 
@@ -157,7 +169,7 @@ Theorem sign1_wire_roundtrip op ou payload sig out :
   exists pb ub dp du,
     marshal_protected h = Acc pb /\ marshal_unprotected h = Acc ub /\
     unmarshal_sign1 out = Acc (mkS1 (mkH (Some pb) (Some dp) (Some ub) (Some du)) payload (Some sig)) /\
-    same_view (hmap op) dp /\ same_view (hmap ou) du /\ 0 < len pb.
+    same_view (hmap op) dp /\ same_view (hmap ou) du /\ 0 < len pb /\ brel op dp /\ urel ou du.
 Proof.
   intros h Hp Hu Lp Lu Hpl Hsg Hne Hm Hlim. subst h.
   unfold marshal_sign1, sign1_content in Hm. cbn [s1_sig s1_h s1_payload glen gor] in Hm.
@@ -167,8 +179,8 @@ Proof.
   destruct (enc_protected op) as [pb| | |] eqn:Ep; cbn [bind] in Hm; try discriminate.
   destruct (enc_unprotected ou) as [ub| | |] eqn:Eu; cbn [bind] in Hm; try discriminate.
   cbn [fst snd] in Hm. injection Hm as <-.
-  destruct (prot_case op pb Hp Lp Ep) as (m & dp & -> & Sm & Dp & Vp).
-  destruct (unprot_case ou ub 19 Hu Lu Eu) as (wu & du & -> & Wu & Du & Vu).
+  destruct (prot_case op pb Hp Lp Ep) as (m & dp & -> & Sm & Dp & Vp & Bp).
+  destruct (unprot_case ou ub 19 Hu Lu Eu) as (wu & du & -> & Wu & Du & Vu & Bu).
   exists (ser (tbstr m)), (ser wu), dp, du. split; [reflexivity|]. split; [reflexivity|].
   set (plw := match payload with Some b => tbstr b | None => WSim W0 22 end).
   assert (Epl : enc_gobytes payload = ser plw) by (destruct payload; reflexivity).
@@ -188,7 +200,7 @@ Proof.
   split.
   - destruct (sign1_conforming_accepted (tbstr m) wu plw (tbstr sig) _ payload sig (minw (len sig)) We De Bpl eq_refl Hne Dh) as [T _].
     exact T.
-  - split; [exact Vp|]. split; [exact Vu|]. pose proof (ser_nonempty (tbstr m)). unfold len. lia.
+  - split; [exact Vp|]. split; [exact Vu|]. split; [pose proof (ser_nonempty (tbstr m)); unfold len; lia|]. auto.
 Qed.
 
 (* hence: the to-be-signed bytes and the algorithm gate of the decoded message are those of the original *)
@@ -201,7 +213,7 @@ Corollary sign1_wire_verifies op ou payload sig out ext vf :
   exists m', unmarshal_sign1 out = Acc m' /\ fst (sign1_verify m' ext vf) = Acc tt.   (* ... and after the wire *)
 Proof.
   intros h Hp Hu Lp Lu Hpl Hsg Hne Hm Hlim Hv. subst h.
-  destruct (sign1_wire_roundtrip op ou payload sig out Hp Hu Lp Lu Hpl Hsg Hne Hm Hlim) as (pb & ub & dp & du & Mp & Mu & U & Vp & Vu & Lpb).
+  destruct (sign1_wire_roundtrip op ou payload sig out Hp Hu Lp Lu Hpl Hsg Hne Hm Hlim) as (pb & ub & dp & du & Mp & Mu & U & Vp & Vu & Lpb & _ & _).
   eexists. split; [exact U|].
   apply sign1_verify_iff in Hv. apply sign1_verify_iff. cbn [s1_payload s1_sig s1_h] in *.
   destruct Hv as (Hpay & Hsig & Hg & t & Ht & Hr). split; [exact Hpay|]. split; [exact Hsig|]. split.
@@ -262,8 +274,8 @@ Proof.
   destruct (enc_protected op) as [pb| | |] eqn:Ep; cbn [bind] in Hm; try discriminate.
   destruct (enc_unprotected ou) as [ub| | |] eqn:Eu; cbn [bind] in Hm; try discriminate.
   cbn [fst snd] in Hm. injection Hm as <-.
-  destruct (prot_case op pb Hp Lp Ep) as (m & dp & -> & Sm & Dp & Vp).
-  destruct (unprot_case ou ub 19 Hu Lu Eu) as (wu & du & -> & Wu & Du & Vu).
+  destruct (prot_case op pb Hp Lp Ep) as (m & dp & -> & Sm & Dp & Vp & _).
+  destruct (unprot_case ou ub 19 Hu Lu Eu) as (wu & du & -> & Wu & Du & Vu & _).
   exists (WArr W0 [tbstr m; wu; tbstr sig]), (mkSig (mkH (Some (ser (tbstr m))) (Some dp) (Some (ser wu)) (Some du)) (Some sig)).
   split; [cbn [ser flat_map]; rewrite app_nil_r, enc_bstr_ser; reflexivity|].
   split; [cbn [wf forallb length]; rewrite (tbstr_wf _ Sm), Wu, (tbstr_wf _ Hsg); reflexivity|].
@@ -344,8 +356,8 @@ Proof.
   destruct (enc_unprotected ou) as [ub| | |] eqn:Eu; cbn [bind] in Hmm; try discriminate.
   destruct (mapM marshal_opt_signature (map (fun s => Some (st_sigv s)) sts)) as [bss| | |] eqn:Ms; cbn [bind] in Hmm; try discriminate.
   cbn [fst snd] in Hmm.
-  destruct (prot_case op pb Hp Lp Ep) as (mm & dp & -> & Sm & Dp & Vp).
-  destruct (unprot_case ou ub 19 Hu Lu Eu) as (wu & du & -> & Wu & Du & Vu).
+  destruct (prot_case op pb Hp Lp Ep) as (mm & dp & -> & Sm & Dp & Vp & _).
+  destruct (unprot_case ou ub 19 Hu Lu Eu) as (wu & du & -> & Wu & Du & Vu & _).
   destruct (sigs_roundtrip sts bss Hst Ms) as (items & sigs & -> & Wi & Li & Di & Fi).
   set (plw := match payload with Some b => tbstr b | None => WSim W0 22 end).
   assert (Epl : enc_gobytes payload = ser plw) by (destruct payload; reflexivity).
